@@ -183,6 +183,8 @@ def _record(acc, case, res: Result):
         acc["labels"][l] += 1
     if getattr(res, "_inconclusive", False):
         acc["inconclusive"] += 1
+        if len(acc.setdefault("inconclusive_cases", [])) < 3:
+            acc["inconclusive_cases"].append(case)
         return
     if res.nontrivial:
         h = case_hash(case)
